@@ -43,3 +43,27 @@ func VerifC11Shares() {
 		verif_assert("no-cu-no-share", r1.IsZero())
 	}
 }
+
+// VerifC11SharesWide: the same split with tracked CU anywhere in uint64 (two entries whose sum does not wrap, so
+// totals above 2^63 are included) and a small credit, to cover sign/width slips in the CU conversions.
+func VerifC11SharesWide() {
+	k := Keeper{}
+	credit := verif_nondet_ubig("credit", verif_param("wide_credit_bits", 12))
+	cu1 := verif_nondet_u64("trackedCu[0]")
+	cu2 := verif_nondet_u64("trackedCu[1]")
+	total := cu1 + cu2
+	verif_assume(total >= cu1) // RewardAndResetCuTracker's uint64 sum did not wrap
+	verif_assume(total >= 1<<62)
+	T := math.NewIntFromBigInt(credit)
+
+	r1 := k.CalcTotalMonthlyReward(sdk.Context{}, T, cu1, total)
+	r2 := k.CalcTotalMonthlyReward(sdk.Context{}, T, cu2, total)
+
+	verif_assert("wide-shares-non-negative", !r1.IsNegative() && !r2.IsNegative())
+	verif_assert("wide-shares-together-at-most-credit", r1.Add(r2).LTE(T))
+	lhs := new(big.Int).Mul(r1.BigInt(), new(big.Int).SetUint64(total))
+	num := new(big.Int).Mul(credit, new(big.Int).SetUint64(cu1))
+	upper := new(big.Int).Add(lhs, new(big.Int).SetUint64(total))
+	verif_assert("wide-share-is-credit-times-cu-over-total-rounded-down", lhs.Cmp(num) <= 0 && num.Cmp(upper) < 0)
+	verif_reach("paid")
+}
